@@ -351,7 +351,7 @@ def run_busoff(plan):
                     if before[mname][i] != 0:
                         expected.add((mname, i))
     for k in plan['off_buses']:
-        if k < ss.Bus.n:
+        if k < ss.Bus.n and before['Bus'][k] != 0:        # a bus that the case file already has out of service does not change
             expected.add(('Bus', k))
     got = {(m, i) for (m, f, i) in changed}
     extra = sorted(got - expected)
